@@ -167,10 +167,27 @@ pub fn run(sc: &Value) -> Vec<String> {
     let mut kind = String::new();
     let mut timed_out = false;
     let mut delivered = 0usize;
+    let tls_phase = phase.starts_with("tls-") || phase.starts_with("tunnel-");
+    if tls_phase {
+        attohttpc::verif::set_resolver(Some(Box::new(move |host, prt| if host.ends_with(".test") { Some(vec![std::net::SocketAddr::from(([127, 0, 0, 1], prt))]) } else { None })));
+    }
     let res = catch_unwind(AssertUnwindSafe(|| -> Result<(), String> {
         let connect_phase = phase.starts_with("connect-reply");
-        let url = if connect_phase { "https://origin.test/x".to_string() } else { format!("http://127.0.0.1:{}/start", port) };
         let mut ps = attohttpc::ProxySettings::builder();
+        let url = if connect_phase {
+            "https://origin.test/x".to_string()
+        } else if tls_phase {
+            // a TLS origin (certificate from the private CA) that stalls or drips after the handshake; reached directly or through a tunnel
+            let p = crate::tlsx::pki();
+            let tport = p.ports.iter().find(|x| x.0 == ("ca".to_string(), false, true)).unwrap().1;
+            if phase.starts_with("tunnel-") {
+                ps = ps.https_proxy(format!("http://127.0.0.1:{}", p.proxy_port).parse::<url::Url>().unwrap());
+            }
+            let what = if phase.ends_with("head") { "stall-head" } else if gs(sc, "mode") == "drip" { "drip-body" } else { "stall-body" };
+            format!("https://good.test:{}/{}", tport, what)
+        } else {
+            format!("http://127.0.0.1:{}/start", port)
+        };
         if connect_phase {
             ps = ps.https_proxy(format!("http://127.0.0.1:{}", port).parse::<url::Url>().unwrap());
         }
@@ -178,6 +195,9 @@ pub fn run(sc: &Value) -> Vec<String> {
         b = b.proxy_settings(ps.build()).read_timeout(Duration::from_millis(r_ms as u64)).connect_timeout(Duration::from_secs(2));
         if t_ms > 0 {
             b = b.timeout(Duration::from_millis(t_ms as u64));
+        }
+        if tls_phase {
+            b = b.add_root_certificate(crate::tlsx::root_cert(crate::tlsx::pki()));
         }
         let classify = |e: &attohttpc::Error| -> (String, bool) {
             let k = crate::exchange::err_kind(e);
@@ -226,6 +246,9 @@ pub fn run(sc: &Value) -> Vec<String> {
         Ok(())
     }));
     let elapsed = t0.elapsed().as_millis() as usize;
+    if tls_phase {
+        attohttpc::verif::set_resolver(None);
+    }
     let (r, k) = match res {
         Ok(Ok(())) => ("ok", String::new()),
         Ok(Err(k)) => ("err", k),
@@ -241,7 +264,7 @@ pub fn run(sc: &Value) -> Vec<String> {
         fds_left = count_dir("/proc/self/fd").saturating_sub(base_fds);
     }
     let stall = phase != "none";
-    let body_phase = matches!(phase.as_str(), "between-head-body" | "inside-length" | "inside-close" | "inside-chunk" | "chunk-size-line");
+    let body_phase = matches!(phase.as_str(), "between-head-body" | "inside-length" | "inside-close" | "inside-chunk" | "chunk-size-line" | "tls-body" | "tunnel-body");
     vec![json!({"ev":"rt","id":gs(sc,"id"),"phase":phase,"mode":gs(sc,"mode"),"T":t_ms,"R":r_ms,"stall":stall,"readSide":phase != "upload",
         "bodyPhase":body_phase,"elapsed":elapsed,"res":r,"kind":kind,"timedOut":timed_out,"eofClean":eof_clean,"postEofTimeouts":post_eof_timeouts,
         "delivered":delivered,"checkedRelease":check_release,"threadsLeft":threads_left,"fdsLeft":fds_left})
@@ -285,6 +308,20 @@ pub fn generate(seed: u64, tier: &str, release: bool) -> Vec<Value> {
                 out.push(json!({"id":format!("rt-{}", id),"phase":phase,"mode":mode,"T":0,"R":300}));
                 id += 1;
                 out.push(json!({"id":format!("rt-{}", id),"phase":phase,"mode":mode,"T":6000,"R":300}));
+                id += 1;
+            }
+        }
+    }
+    // stalls after a TLS handshake: directly and inside a CONNECT tunnel
+    for phase in ["tls-head", "tls-body", "tunnel-head", "tunnel-body"] {
+        for mode in ["silent", "drip"] {
+            if mode == "drip" && phase.ends_with("head") {
+                continue;
+            }
+            out.push(json!({"id":format!("rt-{}", id),"phase":phase,"mode":mode,"T":500,"R":2000}));
+            id += 1;
+            if mode == "silent" {
+                out.push(json!({"id":format!("rt-{}", id),"phase":phase,"mode":mode,"T":0,"R":300}));
                 id += 1;
             }
         }
